@@ -31,7 +31,7 @@ def plan(tier, seed):
         for i in range(10):
             sh.append({"kind": "fault-matrix", "part": i, "parts": 10, "stride": 5, "oracles": orc, "depth": 2})
         sh.append({"kind": "holes", "n": 240, "oracles": orc})
-        sh.append({"kind": "failpoints", "n": 14, "max_k": 12, "oracles": orc})
+        sh.append({"kind": "failpoints", "n": 18, "max_k": 12, "oracles": orc})
         for s in range(3):
             sh.append({"kind": "random", "shard": s, "n": 40, "oracles": orc, "faults": 0.2})
         sh.append({"kind": "exhaustive", "n": 2, "depth": 2, "oracles": orc})
